@@ -475,6 +475,22 @@ vbi_bit_slicer_init(vbi_bit_slicer *slicer,
 			 + sampling_rate * 256.0 / bit_rate * .25 + 128);
 		break;
 	}
+
+	{
+		/* The last bit is sampled (phase_shift + (n - 1) * step) >> 8
+		   samples after the position where the CRI matched, and
+		   sample() interpolates with the following sample. Stop
+		   the CRI search early enough. */
+		int data_bits = payload + frc_bits;
+		long long far = 0;
+
+		if (data_bits > 0)
+			far = (slicer->phase_shift
+			       + (data_bits - 1) * (long long) slicer->step) >> 8;
+
+		if (slicer->cri_bytes > raw_samples - 1 - far)
+			slicer->cri_bytes = MAX (raw_samples - 1 - far, 0LL);
+	}
 }
 
 /**
